@@ -15,6 +15,8 @@ func main() {
 		os.Exit(2)
 	}
 	switch os.Args[1] {
+	case "timerstress":
+		os.Exit(timerstressMain(os.Args[2:]))
 	case "connstep":
 		os.Exit(connstepMain(os.Args[2:]))
 	default:
